@@ -1,7 +1,7 @@
 (* Property C11 -- written archives conform to the documented format and report settings verbatim.
    Models: Model/Compress.v (writers), Model/Proto.v (prost codec), Model/Archive.v (header). *)
 From Bita Require Import Model.Base Gen.Generated Model.Proto Model.Archive Model.Compress.
-From Bita Require Import Proofs.ProtoRoundTrip.
+From Bita Require Import Model.Chunker Proofs.BoundaryRule Proofs.ProtoRoundTrip Proofs.CompressConform.
 
 (* the dictionary codec: what the writer encodes is what a reader following the schema decodes *)
 Theorem C11_decode_encode_dict : forall d, dict_wf d ->
@@ -9,4 +9,55 @@ Theorem C11_decode_encode_dict : forall d, dict_wf d ->
   decode_dict (encode_dict d) = Some d.
 Proof. exact decode_encode_dict. Qed.
 
+(* conformance of what the writers produce (model level): one descriptor per distinct chunk (distinct by
+   full hash), checksum = truncated hash, stored back to back from offset 0 with the data section exactly the
+   stored bytes, stored size <= source size (raw unless strictly smaller), rebuild indexes valid, in order
+   of first occurrence, and -- absent a hash collision among the chunks of this source -- rebuilding the
+   source; size, checksum, chunker parameters, compression, metadata and version recorded verbatim *)
+Theorem C11_compress_conforming :
+  forall (H comp : list N -> list N) (src : list N) (o : copts) (d : dictionary) (data : list N),
+    valid_config (o_cfg o) = true ->
+    compress_dict H comp src o = Ok (d, data) ->
+    exists uniq : list (list N),
+         length uniq = length (dict_descs d) /\ NoDup (map H uniq) /\ Forall (fun x => 0 < lenN x) uniq
+      /\ Forall2 (fun x dsc => d_checksum dsc = takeN (o_hashlen o) (H x)
+                               /\ d_source_size dsc = w32 (lenN x)
+                               /\ d_archive_size dsc = w32 (lenN (stored comp o x))) uniq (dict_descs d)
+      /\ contiguous 0 (map (fun x => lenN (stored comp o x)) uniq) (dict_descs d)
+      /\ data = concat (map (stored comp o) uniq)
+      /\ Forall (fun x => lenN (stored comp o x) <= lenN x
+                          /\ (stored comp o x = x \/ (stored comp o x = comp x /\ lenN (comp x) < lenN x))) uniq
+      /\ Forall (fun i => i < lenN uniq) (dict_order d)
+      /\ first_occ_ordered 0 (dict_order d)
+      /\ (lenN uniq < 4294967296 ->
+          (forall chunks, chunk_oneshot (o_cfg o) src = Ok chunks -> collision_free H (chunk_datas src chunks)) ->
+          concat (map (fun i => match nthN i uniq with Some x => x | None => [] end) (dict_order d)) = src)
+      /\ dict_total d = lenN src /\ dict_checksum d = H src
+      /\ dict_params d = Some (params_of (o_cfg o) (o_hashlen o))
+      /\ dict_comp d = Some (comp_record (o_comp o))
+      /\ dict_meta d = o_meta o /\ dict_version d = o_version o.
+Proof. exact compress_conforming. Qed.
+
+(* documented header layout: magic, little-endian dictionary size, dictionary, chunk data offset (= header
+   length when the writer computes it), hash of everything before it *)
+Theorem C11_header_layout : forall (H : list N -> list N) dictb off,
+  lenN dictb < 18446744073709551616 ->
+  let h := build_header H dictb off in
+  let n := lenN dictb in
+     takeN 6 h = ARCHIVE_MAGIC
+  /\ slice h 6 14 = le_bytes 8 n
+  /\ slice h 14 (14 + n) = dictb
+  /\ slice h (14 + n) (14 + n + 8) = le_bytes 8 (match off with Some o => o | None => 14 + n + 8 + 64 end)
+  /\ dropN (14 + n + 8) h = H (takeN (14 + n + 8) h)
+  /\ (lenN (H (takeN (14 + n + 8) h)) = 64 -> lenN h = 14 + n + 8 + 64).
+Proof. exact build_header_layout. Qed.
+
+Theorem C11_archive_is_header_then_chunks : forall (H comp : list N -> list N) src o bytes d data,
+  compress_dict H comp src o = Ok (d, data) -> compress_model H comp src o = Ok bytes ->
+  bytes = build_header H (encode_dict d) None ++ data.
+Proof. exact compress_model_layout. Qed.
+
+Print Assumptions C11_compress_conforming.
+Print Assumptions C11_header_layout.
+Print Assumptions C11_archive_is_header_then_chunks.
 Print Assumptions C11_decode_encode_dict.
